@@ -1,6 +1,6 @@
 (* Properties/C03.v -- Guaranteed Reed-Solomon correction capacity (what is a theorem so far). *)
 From Coq Require Import Arith NArith List Bool.
-From DM Require Import Generated.Symbols Spec.GF256 Spec.Poly Spec.RSCode Model.Outcome Model.RSEnc Model.RSDec Proofs.SymbolListProofs Proofs.RSDecProofs Proofs.MinDistance.
+From DM Require Import Generated.Symbols Spec.GF256 Spec.Poly Spec.RSCode Model.Outcome Model.RSEnc Model.RSDec Proofs.SymbolListProofs Proofs.RSDecProofs Proofs.MinDistance Proofs.LDBound Proofs.NoMiscorrection.
 Import ListNotations.
 
 (* weight 0: every codeword vector of every size passes through the decoder unchanged *)
@@ -43,12 +43,32 @@ Theorem C03_block_lengths : forall s,
 Proof. intros s. apply N.leb_le. exact (sweep (fun s => ((num_data_codewords s + num_ecc_blocks s - 1) / num_ecc_blocks s + num_ecc_per_block s <=? 255)%N) eq_refl s). Qed.
 Print Assumptions C03_block_lengths.
 
-(* NOT theorems: (a) completeness -- that up to floor(k/2) errors per block are always repaired -- is the
-   correctness of the Schmidt-Fettweis Levinson-Durbin recursion with its singular-case step and of the
-   Bjoerck-Pereyra solver; (b) that the decoder never alters more than floor(k/2) positions of a block (with (b), C09
-   and C03_unique_within_radius a successful result would be proved to be the original codeword).  Both are
-   covered by fault enumeration in the check: every weight 0..t, every region of every block of all 48 sizes, every
-   single position, and the same damage applied to rendered modules. *)
+(* soundness within the guaranteed radius, for every size, every codeword and EVERY error pattern of at most floor(k/2)
+   wrong codewords per block: if the decoder reports success, what it leaves behind is exactly the transmitted codeword
+   (never a different codeword, never a half-corrected word).  Proof: the locator found by the Levinson-Durbin routine
+   has at most floor(k/2) roots (C03_locator_bound -- from the loop guard and the asserted length, not from the
+   correctness of the recursion), step 4 alters one position per root, success implies codeword (C09), and within
+   floor(k/2) of any word there is at most one codeword (C03_unique_within_radius). *)
+Theorem C03_locator_bound : forall syn lam, find_inv_error_locations_levinson_durbin syn = Ok lam ->
+  (length lam <= length syn / 2 + 1)%nat.
+Proof. exact ld_locator_length. Qed.
+Print Assumptions C03_locator_bound.
+
+Theorem C03_no_miscorrection : forall s cD cE rcv c',
+  let B := N.to_nat (num_ecc_blocks s) in let k := N.to_nat (num_ecc_per_block s) in let nd := N.to_nat (num_data_codewords s) in
+  length cD = nd -> length cE = (k * B)%nat -> Forall byte cD -> Forall byte cE -> is_codeword B k cD cE ->
+  length rcv = (nd + k * B)%nat -> Forall byte rcv ->
+  (forall b, (b < B)%nat ->
+     (ham (every B b cD) (every B b (firstn nd rcv)) + ham (every B b cE) (every B b (skipn nd rcv)) <= k / 2)%nat) ->
+  RSDec.decode rcv s = Ok c' -> c' = cD ++ cE.
+Proof. exact no_miscorrection. Qed.
+Print Assumptions C03_no_miscorrection.
+
+(* NOT a theorem: completeness -- that for every such error pattern the decoder DOES report success (i.e. never answers
+   TooManyErrors / Malfunction / ErrorsOutsideRange within the radius) -- is the correctness of the Schmidt-Fettweis
+   Levinson-Durbin recursion with its singular-case step and of the Bjoerck-Pereyra solver.  It is covered by fault
+   enumeration in the check: every weight 0..t, every region of every block of all 48 sizes, every single position, and
+   the same damage applied to rendered modules. *)
 Example C03_example :
   RSDec.decode [23; 40; 11; 0; 207; 37; 0; 81]%N Square10 = Ok [23; 40; 11; 255; 207; 37; 244; 81]%N.
 Proof. vm_compute. reflexivity. Qed.
